@@ -1,5 +1,5 @@
 import PharmpyModel.Core.Sexp
-import PharmpyModel.C12.Hash
+import PharmpyModel.C12.Derivs
 /-
   C12 driver.  Expressions/matrices travel as their serialised text (E = M = String,
   identity codec); a derivative tuple travels as the singleton list of its `str(..)`.
@@ -11,6 +11,7 @@ import PharmpyModel.C12.Hash
     (build OPS T)            -> (ok "<json text>")             builder op sequence -> CompartmentalSystem.to_dict
     (canon GRAPH T)          -> (ok "<json text>")             repaired (canonical) to_dict
     (encode DATASET MODEL)   -> ((row n) .. (text s) ..)       ModelHash pre-image
+    (canonderivs ((NAME ..) ..)) -> (ok ((NAME ..) ..)) | (err IndexError)   EstimationStep._canonicalize_derivatives
     (leaf REPR)              -> (ok "<text>")                  the numeric leaf encoder of json.dumps on one float
 -/
 open Pharmpy Pharmpy.C12
@@ -285,6 +286,12 @@ def handle (req : Sexp) : Sexp :=
     answer (listOf? opOf? ops) (fun ops => okText (CompSys.toDict idCodec { g := runOps ops, t }))
   | .list [.atom "canon", g, .atom t] =>
     answer (graphOf? g) (fun g => okText (CompSys.toDict idCodec (CompSys.canon { g, t })))
+  | .list [.atom "canonderivs", ds] =>
+    match listOf? (listOf? Sexp.asAtom?) ds with
+    | some ds => match canonDerivs ds with
+      | some r => .list [.atom "ok", .list (r.map Sexp.ofStrs)]
+      | none => .list [.atom "err", .atom "IndexError"]
+    | none => bad
   | .list [.atom "leaf", .atom r] => .list [.atom "ok", .atom (render (.flt r))]
   | .list [.atom "encode", ds, m] =>
     match datasetOf? ds, modelOf? m with
